@@ -39,6 +39,11 @@ type ECase struct {
 	Rows   int         `json:"rows,omitempty"`
 	Edits  []string    `json:"edits,omitempty"`
 	Rename *Rename     `json:"rename,omitempty"`
+	// Desired selects how the desired graph is obtained: "" = B's HCL through the real evaluator;
+	// "inspect:<style>" = InspectSchema of a second database created from B by sqlm's raw DDL renderer in
+	// that style (the desired state a user gets from schema.sql / another database: tables carry the
+	// sqlite_autoindex_* indexes of their UNIQUE constraints).
+	Desired string `json:"desired,omitempty"`
 }
 
 // EOutcome is what one engine case showed.
@@ -205,8 +210,30 @@ func runEngine(ctx context.Context, dir string, cs ECase, judge func(*migrate.Pl
 			return
 		}
 	} else {
-		desired, err := sqlm.Eval(cs.B)
-		if err != nil {
+		var desired *schema.Schema
+		if strings.HasPrefix(cs.Desired, "inspect:") {
+			st, ok := sqlm.StyleByName(strings.TrimPrefix(cs.Desired, "inspect:"))
+			if !ok {
+				o.Inconclusive = "unknown-style"
+				return
+			}
+			path2 := filepath.Join(dir, "desired.db")
+			defer sqlm.RemoveDB(path2)
+			if err := sqlm.CreateRaw(path2, cs.B, st); err != nil {
+				o.Inconclusive = "desired-raw"
+				return
+			}
+			ddb, err := sqlm.OpenDB(path2)
+			if err != nil {
+				o.Inconclusive = "open"
+				return
+			}
+			defer ddb.Close()
+			if desired, _, err = inspect(ctx, ddb); err != nil {
+				o.Inconclusive = "inspect-desired"
+				return
+			}
+		} else if desired, err = sqlm.Eval(cs.B); err != nil {
 			o.Inconclusive = "eval-desired"
 			return
 		}
@@ -685,6 +712,43 @@ func engineCases(c *rt.Ctx) []ECase {
 			}
 		}
 		out = append(out, ECase{Name: "other/" + x.p.Name + "/" + x.e.String(), Src: "other", A: x.p.S, B: b, Mode: "atlas", Edits: names})
+	}
+	// (7) desired state obtained by INSPECTING a raw-DDL database (all four styles: inline and table
+	// level UNIQUE constraints give the desired tables sqlite_autoindex_* indexes), planned against an
+	// empty database and against a partial one (the last table missing). Not randomised: the same at
+	// every seed.
+	type insp struct {
+		name string
+		s    sqlm.Schema
+	}
+	var sources []insp
+	for _, p := range pool {
+		if p.Name == "all" && c.Quick() {
+			continue
+		}
+		sources = append(sources, insp{p.Name, p.S})
+		// the same schema with one more UNIQUE constraint (first applicable edit of the catalogue)
+		for _, e := range sqlm.Neighbourhood(p.S) {
+			if e.Kind == "idx.add.unique-constraint" {
+				sources = append(sources, insp{p.Name + "+unique-constraint", e.Apply(p.S)})
+				break
+			}
+		}
+	}
+	for si, src := range sources {
+		for sti, st := range sqlm.Styles {
+			if c.Quick() && !strings.HasPrefix(src.name, "acct") && sti != si%len(sqlm.Styles) {
+				continue
+			}
+			out = append(out, ECase{Name: "inspected-desired/" + src.name + "/" + st.Name + "/from-empty", Src: "inspected", B: src.s, Mode: "atlas", Desired: "inspect:" + st.Name})
+			if n := len(src.s.Tables); n > 1 {
+				part := src.s.Clone()
+				part.Tables = part.Tables[:n-1]
+				if part.Validate() == nil {
+					out = append(out, ECase{Name: "inspected-desired/" + src.name + "/" + st.Name + "/from-partial", Src: "inspected", A: part, B: src.s, Mode: st.Name, Rows: (si % 2) * 3, Desired: "inspect:" + st.Name})
+				}
+			}
+		}
 	}
 	// (6) renames (hand-built change lists; the connected planner supports them)
 	for pi, p := range pool {
